@@ -160,6 +160,7 @@ func initAllow(path string) bool {
 		"github.com/prometheus/prometheus/storage",
 		"github.com/prometheus/prometheus/tsdb/chunkenc",
 		"github.com/efficientgo/core/errors",
+		"github.com/prometheus/prometheus/util/stats",
 		"gonum.org/v1/gonum/floats",
 		"gonum.org/v1/gonum/internal/asm/f64",
 		"container/heap", "sort", "slices", "cmp":
